@@ -56,3 +56,37 @@ package resolver
 // off) may only be the link target reported by the file system or the PARENT'S REAL path joined with the
 // base name - never a path that still goes through a link.
 //@ flow real-path-from-real-path C11: func=(resolverQuery).dirInfoUncached ; in=resolver ; site=store dirInfo.absRealPath ; valuepath=call Symlink(*)|call Join(r.Resolver.fs,[phi:parentInfo.absRealPath,call Base(r.Resolver.fs,path)])
+
+// ----------------------------------------------------------------------------------------------
+// C16 (zero-annotation safety sweep): for ALL arguments (no precondition), no index, slice, nil-dereference,
+// division or conversion in the body of these functions can panic. Loop counters that start at a constant and are
+// only incremented get their lower bound as an automatic invariant (`opt auto-counters`); nothing else is assumed.
+// Calls are replaced by contracts, inlined, or havocked: a panic inside a callee without a contract is not covered.
+//@ func ParseDataURL
+//@   arith int
+//@   nooverflow off
+//@   safety
+//@   opt auto-counters 1
+//@   prop C16
+
+//@ func globstarToEscapedRegexp
+//@   arith int
+//@   nooverflow off
+//@   safety
+//@   opt auto-counters 1
+//@   prop C16
+
+//@ func esmParsePackageName
+//@   arith int
+//@   nooverflow off
+//@   safety
+//@   opt auto-counters 1
+//@   prop C16
+
+//@ func parseBareIdentifier
+//@   arith int
+//@   nooverflow off
+//@   safety
+//@   opt auto-counters 1
+//@   prop C16
+
